@@ -126,10 +126,17 @@ class World:
         conn = self.conns[sid]
         if k == "exec":
             cur = self.cursor(sid, op.get("cur", 0), op.get("dict", False))
-            if op.get("params") is not None:
-                cur.execute(op["sql"], op["params"])
-            else:
-                cur.execute(op["sql"])
+            try:
+                if op.get("params") is not None:
+                    cur.execute(op["sql"], op["params"])
+                else:
+                    cur.execute(op["sql"])
+            except BaseException as e:  # noqa: BLE001
+                if isinstance(e, (KeyboardInterrupt, SystemExit, core.SimCrash, core.HarnessError)):
+                    raise
+                rec = exc_record(e)
+                rec["cursor_sqlstate"] = cur.sqlstate
+                return rec
             out: dict[str, Any] = {"ok": True}
             if op.get("fetch", True):
                 out["rows"] = norm_rows(cur.fetchall())
